@@ -147,7 +147,7 @@ func (e *Enc) execBuiltin(fr *Frame, b *ssa.Builtin, c *ssa.CallCommon, instr ss
 			e.assume(fmt.Sprintf("(forall ((i Int)) (! (=> (or (< i (s_off %s)) (>= i (+ (s_off %s) %s))) (= (select %s i) (select (select %s (s_arr %s)) i))) :pattern ((select %s i))))", dst, dst, n, na, old, dst, na))
 			if args[1].S == "Slice" {
 				src := args[1].T
-				e.assume(fmt.Sprintf("(forall ((i Int)) (! (=> (and (<= 0 i) (< i %s)) (= (select %s (+ (s_off %s) i)) (select (select %s (s_arr %s)) (+ (s_off %s) i)))) :pattern ((select %s (+ (s_off %s) i)))))", n, na, dst, old, src, src, na, dst))
+				e.assume(fmt.Sprintf("(forall ((i Int)) (! (=> (and (<= 0 i) (< i %s)) (= (select %s (sidx (s_off %s) i)) (select (select %s (s_arr %s)) (sidx (s_off %s) i)))) :pattern ((select %s (sidx (s_off %s) i))))))", n, na, dst, old, src, src, na, dst))
 			}
 			e.set(cur.st, comp, ite(eq("(s_arr "+dst+")", "nil"), old, store(old, "(s_arr "+dst+")", na)))
 			return Val{T: n, S: "Int"}
@@ -230,15 +230,15 @@ func (e *Enc) execAppend(fr *Frame, c *ssa.CallCommon, args []Val, cur *pathStat
 	off := e.defineFresh("app_off", "Int", ite(inplace, "(s_off "+s+")", "0"))
 	// prefix: in place => untouched old array except appended region; realloc => copy
 	e.assume(fmt.Sprintf("(=> %s (forall ((i Int)) (! (=> (or (< i (+ (s_off %s) (s_len %s))) (>= i (+ (s_off %s) (s_len %s) %s))) (= (select %s i) (select (select %s (s_arr %s)) i))) :pattern ((select %s i)))))", inplace, s, s, s, s, n, nc, old, s, nc))
-	e.assume(fmt.Sprintf("(=> (not %s) (forall ((i Int)) (! (=> (and (<= 0 i) (< i (s_len %s))) (= (select %s i) (select (select %s (s_arr %s)) (+ (s_off %s) i)))) :pattern ((select %s i)))))", inplace, s, nc, old, s, s, nc))
+	e.assume(fmt.Sprintf("(=> (not %s) (forall ((i Int)) (! (=> (and (<= 0 i) (< i (s_len %s))) (= (select %s (sidx 0 i)) (select (select %s (s_arr %s)) (sidx (s_off %s) i)))) :pattern ((select %s (sidx 0 i))) :pattern ((select (select %s (s_arr %s)) (sidx (s_off %s) i))))))", inplace, s, nc, old, s, s, nc, old, s, s))
 	// appended region
 	if t.S == "Slice" {
 		if t.KLenKnown && t.KLen <= 4 {
 			for i := 0; i < t.KLen; i++ {
-				e.assume(fmt.Sprintf("(= (select %s (+ %s (s_len %s) %d)) (select (select %s (s_arr %s)) (+ (s_off %s) %d)))", nc, off, s, i, old, t.T, t.T, i))
+				e.assume(fmt.Sprintf("(= (select %s (sidx %s (+ (s_len %s) %d))) (select (select %s (s_arr %s)) (sidx (s_off %s) %d)))", nc, off, s, i, old, t.T, t.T, i))
 			}
 		} else {
-			e.assume(fmt.Sprintf("(forall ((j Int)) (! (=> (and (<= 0 j) (< j %s)) (= (select %s (+ %s (s_len %s) j)) (select (select %s (s_arr %s)) (+ (s_off %s) j)))) :pattern ((select %s (+ %s (s_len %s) j)))))", n, nc, off, s, old, t.T, t.T, nc, off, s))
+			e.assume(fmt.Sprintf("(forall ((j Int)) (! (=> (and (<= 0 j) (< j %s)) (= (select %s (sidx %s (+ (s_len %s) j))) (select (select %s (s_arr %s)) (sidx (s_off %s) j)))) :pattern ((select (select %s (s_arr %s)) (sidx (s_off %s) j))))))", n, nc, off, s, old, t.T, t.T, old, t.T, t.T))
 		}
 	}
 	arr := e.defineFresh("app_arr", "Ref", ite(inplace, "(s_arr "+s+")", fr0))
